@@ -34,6 +34,11 @@ func checkC01(r *Report, p *Program) {
 	}
 	r16_2(r, p)
 	r05_4(r, p)
+	// every hook-specified field is (re)applied: the merge never skips a desired key (shared with C05)
+	r05_5(r, p)
+	// the server-side-apply memo is per child object
+	keyCompleteness(r, p, "R01.3", "lastUpdateCacheKey")
+	noNewCrossSyncState(r, p, "R01.4")
 }
 
 func r01_children(r *Report, p *Program) {
@@ -42,37 +47,51 @@ func r01_children(r *Report, p *Program) {
 	r.Floor(rule, 12)
 	sinks, _ := childSinks(p)
 	roles := computeChildRoles(p)
-	for _, s := range sinks {
-		f := s.Fn
+	for _, s := range effectiveSinks(p, sinks) {
 		in := s.Instr.(ssa.Instruction)
-		oi, hasO := roles.obs[f]
-		di, hasD := roles.des[f]
 		switch s.Verb {
 		case "Create":
-			if !hasO {
+			related := false
+			w := guardedInSomeFrame(s, func(f *ssa.Function) func(l Lit) bool {
+				oi, hasO := roles.obs[f]
+				if !hasO {
+					return nil
+				}
+				related = true
+				return func(l Lit) bool {
+					v, isNil, ok := l.NilTest()
+					return ok && isNil && elemOf(v, f.Params[oi])
+				}
+			})
+			if !related {
 				r.Check(rule, s.Construct()+"[absent]", p.InstrPos(in), false, "", "cannot relate the create to an observed map")
 				continue
 			}
-			w := unguarded(f, nil, in, func(l Lit) bool {
-				v, isNil, ok := l.NilTest()
-				return ok && isNil && elemOf(v, f.Params[oi])
-			})
 			r.Check(rule, s.Construct()+"[absent]", p.InstrPos(in), w == nil, "Create only if observed[name] == nil", "a child is created although it was observed: every sync would send a Create; "+pathWhy(w))
 		case "Delete":
-			if len(callsTo(f, false, "controller/common.ApplyUpdate")) > 0 && dominatedByAny(f, in, callsTo(f, false, "controller/common.ApplyUpdate")) {
+			of := s.Outer()
+			if aus := callsTo(of.Fn, false, "controller/common.ApplyUpdate"); len(aus) > 0 && dominatedByAny(of.Fn, of.At, aus) {
 				continue // recreate path: R01.1a
 			}
-			if !hasD {
+			related := false
+			w := guardedInSomeFrame(s, func(f *ssa.Function) func(l Lit) bool {
+				di, hasD := roles.des[f]
+				if !hasD {
+					return nil
+				}
+				related = true
+				return func(l Lit) bool {
+					v, isNil, ok := l.NilTest()
+					if !ok || !isNil {
+						return false
+					}
+					return elemOf(v, f.Params[di]) || engine.ResolveLocal(v) == ssa.Value(f.Params[di])
+				}
+			})
+			if !related {
 				r.Check(rule, s.Construct()+"[undesired]", p.InstrPos(in), false, "", "cannot relate the delete to a desired map")
 				continue
 			}
-			w := unguarded(f, nil, in, func(l Lit) bool {
-				v, isNil, ok := l.NilTest()
-				if !ok || !isNil {
-					return false
-				}
-				return elemOf(v, f.Params[di]) || engine.ResolveLocal(v) == ssa.Value(f.Params[di])
-			})
 			r.Check(rule, s.Construct()+"[undesired]", p.InstrPos(in), w == nil, "Delete only if the child is not desired", "an observed child is deleted although it is desired; "+pathWhy(w))
 		}
 	}
@@ -230,13 +249,17 @@ func r01_rmw(r *Report, p *Program) {
 		}
 		cl := f.AnonFuncs[0]
 		add := strings.HasSuffix(key, "AddFinalizer")
-		paths, err := engine.EnumPaths(cl, engine.EnumOpts{Effect: func(in ssa.Instruction) bool { return isCallTo(in, "controllerutil.AddFinalizer", "controllerutil.RemoveFinalizer") }})
+		paths, err := engine.EnumPaths(cl, engine.EnumOpts{Effect: func(in ssa.Instruction) bool {
+			return isCallTo(in, "controllerutil.AddFinalizer", "controllerutil.RemoveFinalizer")
+		}})
 		ok, why := err == nil, ""
 		for _, pa := range paths {
 			if len(pa.Ret) == 0 {
 				continue
 			}
-			has := val(pa, -1, func(a string) bool { return a == "call(controllerutil.ContainsFinalizer)(p0, "+E(cl.FreeVars[0])+")" || strings.HasPrefix(a, "call(controllerutil.ContainsFinalizer)(p0, ") })
+			has := val(pa, -1, func(a string) bool {
+				return a == "call(controllerutil.ContainsFinalizer)(p0, "+E(cl.FreeVars[0])+")" || strings.HasPrefix(a, "call(controllerutil.ContainsFinalizer)(p0, ")
+			})
 			changed := E(pa.Ret[0]) == "true"
 			wantChange := (add && has == -1) || (!add && has == 1)
 			if changed != wantChange || (len(pa.Effects) == 1) != wantChange {
